@@ -28,12 +28,14 @@ for _rf in [f"/tmp/round{_r}/summary.txt" for _r in (2, 3, 4, 5)]:
         if p and p[0] != "DONE":
             conf[p[0]] = line.split("|")[0].strip()
             mat[p[0]] = line.split("|")[-1].strip()
+NEUTRALISED = {"C12_r5_2": "the fix bbf9036 (names no longer absorb a signed number) removes the ambiguity this grammar rewrite resolved differently: on the fixed tree the change "
+                           "no longer alters any translation (its own demo passes); kept for the record, it was not caught before the fix"}
 rows = []
 for rnd_, c, m in [(r, c, m) for r in (1, 2, 3, 4, 5) for c in range(1, 21) for m in (1, 2)]:
     if True:
         sid = f"C{c:02d}_{m}" if rnd_ == 1 else f"C{c:02d}_r{rnd_}_{m}"
         src = f"/tmp/out_C{c:02d}/mut{m}" if rnd_ == 1 else f"/tmp/out{rnd_}_C{c:02d}/mut{m}"
-        if not os.path.exists(src + "/patch.diff") or not os.path.exists(src + "/meta.json") or (rnd_ >= 2 and sid not in conf):
+        if not os.path.exists(src + "/patch.diff") or not os.path.exists(src + "/meta.json") or (rnd_ >= 2 and sid not in conf and sid not in NEUTRALISED):
             continue
         d = os.path.join(OUT, sid)
         os.makedirs(d, exist_ok=True)
@@ -46,7 +48,11 @@ for rnd_, c, m in [(r, c, m) for r in (1, 2, 3, 4, 5) for c in range(1, 21) for 
         meta["rebased_onto_fixed_tree"] = os.path.exists(ported)
         meta["confirmed_here"] = conf.get(sid, "not confirmed")
         log = f"/tmp/matrix/{sid}.log" if rnd_ == 1 else f"/tmp/round{rnd_}/{sid}.log"
+        if os.path.exists(f"/tmp/regress{rnd_}/{sid}.log"):
+            log = f"/tmp/regress{rnd_}/{sid}.log"          # re-run of the earlier rounds against the final machinery
         caught = {"check": f"./vf check C{c:02d}", "result": mat.get(sid, "not run")}
+        if sid in NEUTRALISED:
+            meta["neutralised"] = NEUTRALISED[sid]
         if os.path.exists(log):
             txt = open(log).read()
             viol = [l for l in txt.splitlines() if l.startswith("VIOLATION")]
@@ -56,7 +62,7 @@ for rnd_, c, m in [(r, c, m) for r in (1, 2, 3, 4, 5) for c in range(1, 21) for 
             caught["checker_errors"] = [l[:200] for l in txt.splitlines() if l.startswith("CHECKER-ERROR")][:2]
             m_ = re.search(r"exit=(\d)", txt.splitlines()[-1]) if txt.strip() else None
             caught["exit"] = int(m_.group(1)) if m_ else None
-        evf = f"/tmp/mut_ev/{sid}/C{c:02d}.json"
+        evf = f"/tmp/mut_ev_rg/{sid}/C{c:02d}.json" if os.path.exists(f"/tmp/mut_ev_rg/{sid}/C{c:02d}.json") else f"/tmp/mut_ev/{sid}/C{c:02d}.json"
         ded = []
         if os.path.exists(evf):
             ev = json.load(open(evf))["coverage"]
